@@ -204,6 +204,11 @@ def run(ctx):
                     ctx.event('validity-with-fractional-seconds')
                 aware = rng.random() < 0.3
                 st = start.replace(tzinfo=UTC) if aware else start
+                if aware and rng.random() < 0.5 and 1001 < start.year < 9900:
+                    # the same instant given with another UTC offset (an aware datetime names an instant, whatever its offset)
+                    off = datetime.timedelta(minutes=rng.choice([540, -210, 345, -720, 60, 1]))
+                    st = st.astimezone(datetime.timezone(off))
+                    ctx.event('aware-instant-with-non-utc-offset')
                 if rng.random() < 0.5:
                     txt = rng.choice(ISSUERS_TXT)
                     issuer, icomp = txt, rc.comp_from_uri(txt)
@@ -269,4 +274,4 @@ def run(ctx):
     ctx.need_event('key-locator-wire-form-32-octets')
     ctx.need_event('validity-with-fractional-seconds')
     ctx.assumptions = ['self_sign/sign_req read the real clock (datetime.now is not patchable): their instants are checked within 5 s',
-                       'non-UTC aware datetimes and years < 1000 are outside the generated domain']
+                       'years < 1000 are outside the generated domain (no four-digit year)']
